@@ -365,6 +365,16 @@ impl Check for C19 {
                     let (la, lb) = (lit(a), lit(b));
                     lines.push(Line { expr: format!("{} == v{}", la, j), expect: Some((a == b).to_string()), key: (i, j, "lit==") });
                     lines.push(Line { expr: format!("v{} != {}", i, lb), expect: Some((a != b).to_string()), key: (i, j, "!=lit") });
+                    // ... and with both operands written as literals (nothing is left to look up at run time)
+                    lines.push(Line { expr: format!("{} == {}", la, lb), expect: Some((a == b).to_string()), key: (i, j, "lit==lit") });
+                    lines.push(Line { expr: format!("{} != {}", la, lb), expect: Some((a != b).to_string()), key: (i, j, "lit!=lit") });
+                    if ord {
+                        if let Some(o) = cmp(a, b) {
+                            use std::cmp::Ordering::*;
+                            lines.push(Line { expr: format!("{} < {}", la, lb), expect: Some((o == Less).to_string()), key: (i, j, "lit<lit") });
+                            lines.push(Line { expr: format!("{} >= {}", la, lb), expect: Some((o != Less).to_string()), key: (i, j, "lit>=lit") });
+                        }
+                    }
                     if ord {
                         if let Some(o) = cmp(a, b) {
                             use std::cmp::Ordering::*;
